@@ -18,6 +18,12 @@ CHECKS["C18"] = dict(
     note="Bounded: images <= 3x4 over <= 4 values exhaustively; continuous domain of the centre finder sampled (seeded). Trusts TLC, the dump parser, and float-vs-rational comparison at 1e-12.",
     ref="5 C18")
 
+CHECKS["C20"] = dict(
+    technique="TLA+ spec Geometry.tla (exact integer lattice geometry) model-checked by TLC; every dumped state and Translate edge replayed into real scatterer objects; GeometryTrace.tla validates recorded numeric observations",
+    text="TLC enumerates layered spheres (all increasing radius sequences up to 4 layers), ellipsoids (all semi-axis triples from powers of two), CSG pairs under the three set operations, constructor argument classes, sphere collections (every second sphere on a 7^3 lattice x radii x optional layered third member x warn flag) and all translation paths; containment, layer, index, CSG membership, overlap pairs, warning flag and rejections are decided exactly in integers by the spec and compared with the real objects on all 729 lattice points per state. Voxel volumes, points 1e-9 off the surface and largest_overlap are recorded as traces and validated by TLC.",
+    note="Bounded lattice (-4..4)^3, radii <= 4; off-lattice behaviour sampled (surface normals, seeded clouds, voxel grids). Trusts exact float arithmetic on small integers and powers of two.",
+    ref="5 C20")
+
 NOT_APPLICABLE = []
 
 
